@@ -181,8 +181,12 @@ def signature(prop, ln, failed, spec):
             # expected payload length for byte-level lines: what is left after header, signatures and fixed body
             plen = spec.get("plen", plen)
         return "Unmarshal/%s/%s/%s/%s" % ("accept" if acc else "reject", ff.plen_bucket(plen) if acc else "-", real, f)
+    if ev == "Encode" and "mode" in a:      # several values in flight: results looked at late / nested / concurrently
+        return "SerializeBody/%s/%s/%s" % (a["mode"], real, f)
     if ev == "Encode":
         return "Marshal-SerializeBody/%s/%s" % (real, f)
+    if ev == "DataRace":
+        return "SerializeBody/concurrent/data-race"
     if ev == "ProcBody":
         return "handleMessage-body/%s%s/%s" % ("stored=%s/" % a["stored"] if "stored" in a else "", real, f)
     if ev == "Redigest":
@@ -203,9 +207,11 @@ def signature(prop, ln, failed, spec):
 def line_class(ln):
     """Abstract class of an evaluation, for the distinct_nontrivial count."""
     ev, a, s = ln["ev"], ln["a"], ln["s"]
+    if ev == "DataRace":
+        return (ev,)
     if ev == "Encode":
         v = a["v"]
-        return (ev, tuple(tuple(v[k]) for k in ("timestamp", "nonce", "emitterChain", "targetChain", "emitterAddress", "sequence",
+        return (ev, a.get("mode"), tuple(tuple(v[k]) for k in ("timestamp", "nonce", "emitterChain", "targetChain", "emitterAddress", "sequence",
                                                 "consistencyLevel")), len(v["payload"]), len(v["sigs"]), tuple(v["version"]))
     if ev == "ProcBody":
         v = a["v"]
@@ -272,6 +278,8 @@ def vector_from_line(ln, i):
         return dict(id=i, kind="C05B", bytes=a["bytes"])
     if ev == "DecodeShape":
         return dict(id=i, kind="C05S", L=a["L"], ver=a["ver"], n=a["cnt"])
+    if ev == "Encode" and "mode" in a:
+        return dict(id=i, kind="C04B", v=dict(a["v"], subsec=a.get("subsec", 0)), mode=a["mode"])
     if ev == "Encode":
         v = dict(a["v"], subsec=a.get("subsec", 0))
         return dict(id=i, kind="C05V", v=v)
@@ -382,9 +390,10 @@ def run(prop, tier, replay=None):
             sub = subdir()
             tasks.append(("vectors/" + target, target, lambda: ff.run_vectors(sub, target, vs, tpath, tag)))
 
-    def add_gen(target, gens, n, tag, env=None):
+    def add_gen(target, gens, n, tag, env=None, race=False):
         sub = subdir()
-        tasks.append(("gen/%s/%s" % (target, "+".join(gens)), target, lambda: ff.run_generators(sub, target, gens, n, tpath, tag, env)))
+        tasks.append(("gen/%s/%s%s" % (target, "+".join(gens), "(-race)" if race else ""), target,
+                      lambda: ff.run_generators(sub, target, gens, n, tpath, tag, env, race)))
 
     def run_tasks():
         from concurrent.futures import ThreadPoolExecutor
@@ -410,6 +419,7 @@ def run(prop, tier, replay=None):
         add_vectors("proc", vectors, "c04")
         add_gen("vaa", ["encode", "redigest"], pl["gen_n"], "c04")
         add_gen("proc", ["procbody"], pl["gen_n"] // 2, "c04")
+        add_gen("vaa", ["concurrent"], pl["gen_n"], "c04conc", race=True)
     elif prop == "C05":
         add_vectors("vaa", vectors, "c05")
         for g, n in pl["gens"]:
@@ -432,7 +442,7 @@ def run(prop, tier, replay=None):
         extra_cov["fuzz"] = finfo
         add_gen("vaa", ["corpus"], 1, "c05corpus", {"VERIF_FUZZ_CORPUS": cdir})
         run_tasks()
-    wanted = {"C04": ("Encode", "ProcBody", "Redigest"), "C05": ("Encode", "Decode", "DecodeShape"), "C06": ("Verify", "ExplorerVerify"),
+    wanted = {"C04": ("Encode", "ProcBody", "Redigest", "DataRace"), "C05": ("Encode", "Decode", "DecodeShape"), "C06": ("Verify", "ExplorerVerify"),
               "C07": ("Quorum", "ExplorerVerify")}[prop]
     lines = [ln for ln in lines if ln["ev"] in wanted]     # e.g. the round-trip decodes of the encode generator speak to C05 only
     nreal = len(lines)
@@ -469,6 +479,7 @@ def run(prop, tier, replay=None):
     tmod = "Trace_VAAWire" if prop in ("C04", "C05") else "Trace_SigVerify"
     tlines = lines
     tstates = 0
+    vacuous = None
     if tlines:
         # negative self-test of the trace specification: corrupted copies of recorded lines MUST be rejected
         # (copies of lines that already agreed with the exported table, so that the corruption is what gets rejected)
@@ -478,7 +489,8 @@ def run(prop, tier, replay=None):
         rejected_n = {rj["n"] for rj in rejs}
         missed = [i for i in range(len(tlines) + 1, len(tlines) + len(probes) + 1) if i not in rejected_n]
         if missed or (not probes and not replay and not found):
-            raise vlib.Broken("trace specification %s did not reject %d of %d corrupted line(s): the binding is vacuous" % (tmod, len(missed), len(probes)))
+            # reported only if the run has no violation to report (violations are printed first, see below)
+            vacuous = "trace specification %s did not reject %d of %d corrupted line(s): the binding is vacuous" % (tmod, len(missed), len(probes))
         rejs = [rj for rj in rejs if rj["n"] <= len(tlines)]
         extra_cov["selftest_corrupted_lines_rejected"] = len(probes)
         print("trace validation (%s): %d evaluations, %d states, %.1fs, %d rejected" % (tmod, len(tlines), tr["distinct"], tr["wall_s"], len(rejs)))
@@ -540,6 +552,8 @@ def run(prop, tier, replay=None):
     seen_sig = set()
     verdict.items.sort(key=lambda it: (it[0] in seen_sig, seen_sig.add(it[0]))[0])
     rc = verdict.finish()
+    if vacuous and rc == 0:
+        raise vlib.Broken(vacuous)
 
     # 6. evidence
     classes = {line_class(ln) for ln in lines}
@@ -586,6 +600,8 @@ def run(prop, tier, replay=None):
         st = [ln for ln in lines if ln["ev"] == "ProcBody" and "stored" in ln["a"]]
         cov["observations_with_prestored_vaa"] = dict(Counter("%s:%s" % (ln["a"]["stored"], "signed" if ln["s"].get("storeGuardianSigned") else "ignored") for ln in st))
         cov["two_step_histories"] = sum(1 for ln in lines if ln["ev"] == "Redigest")
+        cov["values_in_flight"] = dict(Counter("%s%s" % (ln["a"]["mode"], "(-race)" if ln.get("race_detector") else "")
+                                               for ln in lines if ln["ev"] == "Encode" and "mode" in ln["a"]))
     if prop == "C07":
         if tier == "thorough" and not replay:
             cov["tlaps_unbounded_lemmas"] = tlaps_quorum(work)
